@@ -1,1 +1,173 @@
-(* C02 - to be filled *)
+(* C02 - Script order mirrors document order.
+   Only statements, each closed by [exact]; see Proofs/C02.v.  The declarative description of what an
+   entry contributes ([EntryStmts], [Expands], [own_stmts]) is in Spec/C01.v. *)
+From Slinky Require Import Model.Types Model.Runtime Model.Style Model.Script Model.Writer Model.LdSem.
+From Slinky Require Import Spec.C18 Spec.C09 Spec.C02 Proofs.C18 Proofs.C02.
+From Coq Require Import ZArith.
+
+(* ---------- inside a group: the statements of one entry ---------- *)
+
+(* whatever emit_section_for_file writes for an entry is what the description says: for every section
+   of the entry's expansion, in order, the entry's own statement (or, for a group, its children
+   depth-first in list order).  Holds for every fuel, stack of sections being expanded, and state. *)
+Theorem C02_order : forall rt sty cfg seg sections f n stack section base ws s ws',
+  emit_sff rt sty cfg seg sections f n stack section base ws = Ok (s, ws') ->
+  EntryStmts rt sty cfg seg sections f section base s.
+Proof. exact emit_sff_sound. Qed.
+
+(* the files of a segment for one section: the entries of the segment in list order *)
+Theorem C02_order_files : forall rt sty cfg seg sections base_path section ws s ws',
+  emit_section rt sty cfg seg sections base_path section ws = Ok (s, ws') ->
+  exists b, (exists b0, escape_path rt base_path = Ok b0 /\
+                        (if reference_partial cfg then b = b0
+                         else exists d, escape_path rt (sg_dir seg) = Ok d /\ b = push b0 d)) /\
+            KidsStmts rt sty cfg seg sections (sg_files seg) section b s.
+Proof. exact emit_section_sound. Qed.
+
+(* the files of a segment / the children of a group: one contribution per entry, in list order *)
+Theorem C02_files_in_order : forall rt sty cfg seg sections files k base l,
+  KidsStmts rt sty cfg seg sections files k base l ->
+  exists ls, Forall2 (fun c lc => EntryStmts rt sty cfg seg sections c k base lc) files ls /\ l = List.concat ls.
+Proof. exact kids_entries. Qed.
+
+(* an entry that is not a group: the concatenation, over the sections k of its expansion in order, of
+   its own statement for k *)
+Theorem C02_order_leaf : forall rt sty cfg seg sections f section base l,
+  EntryStmts rt sty cfg seg sections f section base l -> fi_kind f <> KGroup ->
+  exists keys, Expands cfg seg sections f section keys /\
+    l = flat_map (fun k => if should_emit rt (fi_conds f) then own_stmts rt sty seg f k base else []) keys.
+Proof. exact entry_leaf. Qed.
+
+(* an included group: for every section of its own expansion in order, its children in list order *)
+Theorem C02_order_group : forall rt sty cfg seg sections f keys base l d,
+  KeysStmts rt sty cfg seg sections f keys base l ->
+  should_emit rt (fi_conds f) = true -> fi_kind f = KGroup -> escape_path rt (fi_dir f) = Ok d ->
+  exists ls, Forall2 (fun k lk => KidsStmts rt sty cfg seg sections (fi_files f) k (push base d) lk) keys ls /\
+             l = List.concat ls.
+Proof. exact keys_group. Qed.
+
+(* sub-group sections directly follow their lead section for the same file: the expansion is, for
+   every k of [here f section] in order, k followed by the expansions of the members of its sub-group *)
+Theorem C02_subgroups_follow_lead : forall cfg seg sections f section l,
+  Expands cfg seg sections f section l ->
+  exists ls, Forall2 (fun k lk => exists lm, ExpandsMembers cfg seg sections f (entry_members cfg seg f k) lm /\ lk = k :: lm)
+                     (here sections f section) ls /\ l = List.concat ls.
+Proof. exact expands_shape. Qed.
+
+Theorem C02_subgroup_members_in_order : forall cfg seg sections f ms l,
+  ExpandsMembers cfg seg sections f ms l ->
+  exists ls, Forall2 (Expands cfg seg sections f) ms ls /\ l = List.concat ls.
+Proof. exact members_shape. Qed.
+
+(* pads and linker offsets sit at their list position (C02_order) and only in their own section *)
+Theorem C02_pad_own_section : forall rt sty seg f k base s,
+  fi_kind f = KPad ->
+  (In s (own_stmts rt sty seg f k base) <-> fi_section f = k /\ s = SDotAdd (fi_pad_amount f)).
+Proof. exact own_pad_iff. Qed.
+
+Theorem C02_offset_own_section : forall rt sty seg f k base s,
+  fi_kind f = KLinkerOffset ->
+  (In s (own_stmts rt sty seg f k base) <->
+   fi_section f = k /\ s = SAssign false false true (linker_offset sty (fi_linker_offset_name f)) EDot).
+Proof. exact own_offset_iff. Qed.
+
+Example C02_order_example :
+  exists s ws',
+    emit_section ex_rt Splat cfg_normal
+                 (Segment "boot" ex_files_boot None None None None "src" None no_conds [".text"; ".data"] [".bss"]
+                          None None None None None [] [] true None [(".text", [".text.hot"])] KAbsent)
+                 [".text"; ".data"] "build" ".text" ws0 = Ok (s, ws') /\
+    render s = ["build/src/boot.o(.text*);"; "build/src/boot.o(.text.hot*);";
+                "build/src/lib/libc.a:mem.o(.text*);"; "build/src/lib/libc.a:mem.o(.text.hot*);";
+                "build/src/lib/util.o(.text*);"; "build/src/lib/util.o(.text.hot*);";
+                "boot_mid_OFFSET = .;";
+                "build/src/boot.o(.text*);"; "build/src/boot.o(.text.hot*);"].
+Proof. eexists. eexists. split; [vm_compute; reflexivity|]. vm_compute. reflexivity. Qed.
+
+(* ---------- segments and groups ---------- *)
+
+(* the output sections of the SECTIONS block: for each emitted segment in document order `.name` then
+   `.name.noload`; in single-segment mode the allocatable sections then the noload sections *)
+Theorem C02_segments_in_order : forall rt st cfg classes segs ws s ws',
+  add_all_segments rt st cfg classes segs ws = Ok (s, ws') ->
+  exists body, s = [SSections body] /\
+    if single_segment_mode st
+    then exists seg, segs = [seg] /\ outsec_names body = (alloc_sections seg ++ noload_sections seg)%list
+    else outsec_names body = flat_map segment_outsecs (emitted_segments rt segs).
+Proof. exact segments_in_order. Qed.
+
+(* inside an output section: one group per configured section, in the order of the section list *)
+Theorem C02_groups_in_order : forall rt st cfg seg sections rest ws body ws',
+  part_groups rt st cfg seg sections rest ws = Ok (body, ws') ->
+  exists chunks, body = List.concat chunks /\
+                 Forall2 (is_group_of rt st cfg seg sections) rest chunks.
+Proof. exact groups_in_order. Qed.
+
+Example C02_segments_example :
+  exists w, gen_normal ex_doc ex_rt = Ok w /\
+    flat_map (fun s => match s with SSections body => outsec_names body | _ => [] end) (wo_script w) =
+    [".boot"; ".boot.noload"; ".ovl_a"; ".ovl_a.noload"].
+Proof. eexists. split; [vm_compute; reflexivity|]. vm_compute. reflexivity. Qed.
+
+Local Open Scope Z_scope.
+
+(* ---------- after linking ---------- *)
+
+(* the addresses of the input sections placed while executing any statement list inside one output
+   section never decrease along the list *)
+Theorem C02_addresses_monotone : forall env senv ext final vma sub outsec body ss,
+  nonneg_sizes (l_remaining (s_st ss)) ->
+  exists new,
+    l_placed (s_st (fold_left (exec_sec_stmt env senv ext final vma sub outsec) body ss)) =
+    (l_placed (s_st ss) ++ new)%list /\
+    nondecreasing (map pl_addr new) /\
+    s_off ss <= s_off (fold_left (exec_sec_stmt env senv ext final vma sub outsec) body ss).
+Proof. exact addresses_monotone. Qed.
+
+(* in particular across groups: what a later part of the body places lies above what came before *)
+Theorem C02_addresses_monotone_split : forall env senv ext final vma sub outsec pre post ss,
+  nonneg_sizes (l_remaining (s_st ss)) ->
+  exists new1 new2,
+    l_placed (s_st (fold_left (exec_sec_stmt env senv ext final vma sub outsec) (pre ++ post)%list ss)) =
+    (l_placed (s_st ss) ++ new1 ++ new2)%list /\
+    l_placed (s_st (fold_left (exec_sec_stmt env senv ext final vma sub outsec) pre ss)) =
+    (l_placed (s_st ss) ++ new1)%list /\
+    forall p q, In p new1 -> In q new2 -> pl_addr p <= pl_addr q.
+Proof. exact addresses_monotone_split. Qed.
+
+(* ROM positions never decrease: the two statements that move __romPos *)
+Theorem C02_rom_add_monotone : forall env senv ext final st sec o v,
+  sym_lookup "__romPos" st env ext = Some v ->
+  find_sec sec (l_secs st) = Some o -> 0 <= os_size o ->
+  lookup "__romPos" (l_syms (exec_top_stmt env senv ext final st (SRomAdd sec))) = Some (v + os_size o) /\
+  v <= v + os_size o.
+Proof. exact rom_add_monotone. Qed.
+
+Theorem C02_rom_align_monotone : forall env senv ext final st a v,
+  sym_lookup "__romPos" st env ext = Some v ->
+  lookup "__romPos" (l_syms (exec_top_stmt env senv ext final st (SAlign "__romPos" a))) =
+  Some (align_up v (Z.of_N a)) /\ v <= align_up v (Z.of_N a).
+Proof. exact rom_align_monotone. Qed.
+
+Example C02_addresses_example :
+  map pl_addr (l_placed (s_st (fold_left (exec_sec_stmt [] [] [] true 1000 None ".boot")
+                                         [SInput false "a.o" None ".text" true; SDotAdd 16;
+                                          SInput false "b.o" None ".text" true; SInput false "a.o" None ".data" true]
+                                         (SState 0 false c09_state)))) = [1000; 1026; 1032].
+Proof. vm_compute. reflexivity. Qed.
+
+Print Assumptions C02_order.
+Print Assumptions C02_order_files.
+Print Assumptions C02_files_in_order.
+Print Assumptions C02_order_leaf.
+Print Assumptions C02_order_group.
+Print Assumptions C02_subgroups_follow_lead.
+Print Assumptions C02_subgroup_members_in_order.
+Print Assumptions C02_pad_own_section.
+Print Assumptions C02_offset_own_section.
+Print Assumptions C02_segments_in_order.
+Print Assumptions C02_groups_in_order.
+Print Assumptions C02_addresses_monotone.
+Print Assumptions C02_addresses_monotone_split.
+Print Assumptions C02_rom_add_monotone.
+Print Assumptions C02_rom_align_monotone.
